@@ -1,6 +1,7 @@
 package checks
 
 import (
+	"time"
 	"encoding/json"
 	"fmt"
 	"strings"
@@ -184,6 +185,8 @@ func (h C09Hist) Desc() string {
 	for _, o := range h.Ops {
 		if o == 8 {
 			ops = append(ops, "dispatch")
+		} else if o == 9 {
+			ops = append(ops, "dispatch(handler panics, caller recovers)")
 		} else {
 			ops = append(ops, "register("+c09Keys[o]+")")
 		}
@@ -198,6 +201,7 @@ func c09HistEval(h C09Hist) string {
 		m := c09Msgs[h.Msg]
 		mux := diam.NewServeMux()
 		var fired []string
+		panicNow, panicked := false, false
 		model := map[string]string{}
 		gen := 0
 		flags := uint8(0)
@@ -208,30 +212,71 @@ func c09HistEval(h C09Hist) string {
 			if o < 8 {
 				gen++
 				tag := fmt.Sprintf("%s#%d", c09Keys[o], gen)
-				hf := diam.HandlerFunc(func(c diam.Conn, msg *diam.Message) { fired = append(fired, tag) })
+				hf := diam.HandlerFunc(func(c diam.Conn, msg *diam.Message) {
+					fired = append(fired, tag)
+					if panicNow {
+						panic("handler panic (injected)")
+					}
+				})
+				register := func(f func()) string {
+					if !panicked {
+						f()
+						return ""
+					}
+					if c09LockLeak {
+						return "" // already reported once in this process: do not wait again
+					}
+					// after a recovered handler panic a registration must still return; if the mux were
+					// left locked it would block for ever - the 30 s are only ever waited on that path
+					done := make(chan struct{})
+					go func() { f(); close(done) }()
+					select {
+					case <-done:
+						return ""
+					case <-time.After(30 * time.Second):
+						c09LockLeak = true
+						return fmt.Sprintf("step %d: registering %s did not return within 30 s after a handler had panicked during an earlier dispatch (the caller recovered, as the connection's serve loop does)", step, c09Keys[o])
+					}
+				}
+				var blocked string
 				switch c09Keys[o] {
 				case "idxK":
-					mux.HandleIdx(diam.CommandIndex{AppID: m.App, Code: m.Code, Request: h.Req}, hf)
+					blocked = register(func() { mux.HandleIdx(diam.CommandIndex{AppID: m.App, Code: m.Code, Request: h.Req}, hf) })
 				case "idxOtherApp":
-					mux.HandleIdx(diam.CommandIndex{AppID: m.OtherApp, Code: m.Code, Request: h.Req}, hf)
+					blocked = register(func() { mux.HandleIdx(diam.CommandIndex{AppID: m.OtherApp, Code: m.Code, Request: h.Req}, hf) })
 				case "idxOtherCode":
-					mux.HandleIdx(diam.CommandIndex{AppID: m.App, Code: m.OtherCode, Request: h.Req}, hf)
+					blocked = register(func() { mux.HandleIdx(diam.CommandIndex{AppID: m.App, Code: m.OtherCode, Request: h.Req}, hf) })
 				case "idxOtherR":
-					mux.HandleIdx(diam.CommandIndex{AppID: m.App, Code: m.Code, Request: !h.Req}, hf)
+					blocked = register(func() { mux.HandleIdx(diam.CommandIndex{AppID: m.App, Code: m.Code, Request: !h.Req}, hf) })
 				case "nameK":
-					mux.Handle(m.Short+suffix(h.Req), hf)
+					blocked = register(func() { mux.Handle(m.Short+suffix(h.Req), hf) })
 				case "nameOtherSuffix":
-					mux.Handle(m.Short+suffix(!h.Req), hf)
+					blocked = register(func() { mux.Handle(m.Short+suffix(!h.Req), hf) })
 				case "nameOtherCmd":
-					mux.Handle(m.OtherName+suffix(h.Req), hf)
+					blocked = register(func() { mux.Handle(m.OtherName+suffix(h.Req), hf) })
 				case "ALL":
-					mux.Handle("ALL", hf)
+					blocked = register(func() { mux.Handle("ALL", hf) })
+				}
+				if blocked != "" {
+					return blocked
 				}
 				model[c09Keys[o]] = tag
 				continue
 			}
 			fired = nil
-			mux.ServeDIAM(nil, diam.NewMessage(m.Code, flags, m.App, 1, 2, c09Dict(m)))
+			panicNow = o == 9
+			func() {
+				defer func() {
+					if r := recover(); r != nil {
+						if !panicNow {
+							panic(r)
+						}
+						panicked = true
+					}
+				}()
+				mux.ServeDIAM(nil, diam.NewMessage(m.Code, flags, m.App, 1, 2, c09Dict(m)))
+			}()
+			panicNow = false
 			reports := 0
 			for {
 				select {
@@ -258,6 +303,18 @@ func c09HistEval(h C09Hist) string {
 		}
 		return ""
 	})
+}
+
+// c09LockLeak: a registration blocked after a recovered handler panic (reported once per process).
+var c09LockLeak bool
+
+func indexOfInt(l []int, x int) int {
+	for i, v := range l {
+		if v == x {
+			return i
+		}
+	}
+	return -1
 }
 
 func indexOf(l []string, s string) int {
@@ -326,13 +383,16 @@ func runC09(ctx *ev.Ctx) {
 				for o := 0; o <= 8; o++ {
 					rec(append(cur, o))
 				}
+				if indexOfInt(cur, 9) < 0 && len(cur) < maxLen-1 && !c09LockLeak {
+					rec(append(cur, 9)) // at most one panicking dispatch per history, never the last operation
+				}
 			}
 			rec(nil)
 		}
 	}
 	ctx.Set("histories", hn)
 	ctx.Set("distinct_selected_handlers", len(outcomes)+1)
-	ctx.Rule = "histories: every sequence of <=5 (thorough 6) operations over {register one of the eight keys with a fresh handler, dispatch} ending in a dispatch, replayed on one ServeMux with every dispatch compared with a reference model (map key -> latest handler; index, then name, then catch-all); AND the complete decision table: for 7 message keys (base CE, application CC, RA under Gx which redefines it, RA under S6a which resolves through the base dictionary, and three messages carrying a private dictionary whose base application defines a command the default dictionary lacks and names code 280 differently) x request/answer: all 2^8 subsets of the registrations {index K, index with other application, other code, other R bit, name of K, name with the other suffix, name of another command, ALL}, and every single re-registration of a present key with a second handler; the handler that fires and the number of error reports are compared with the reference decision (index, then name, then catch-all, else exactly one report)."
+	ctx.Rule = "histories: every sequence of <=5 (thorough 6) operations over {register one of the eight keys with a fresh handler, dispatch, dispatch during which the selected handler panics and the caller recovers as the serve loop does (at most once)} ending in a dispatch, replayed on one ServeMux with every dispatch compared with a reference model (map key -> latest handler; index, then name, then catch-all); AND the complete decision table: for 7 message keys (base CE, application CC, RA under Gx which redefines it, RA under S6a which resolves through the base dictionary, and three messages carrying a private dictionary whose base application defines a command the default dictionary lacks and names code 280 differently) x request/answer: all 2^8 subsets of the registrations {index K, index with other application, other code, other R bit, name of K, name with the other suffix, name of another command, ALL}, and every single re-registration of a present key with a second handler; the handler that fires and the number of error reports are compared with the reference decision (index, then name, then catch-all, else exactly one report)."
 	ctx.Assume = []string{"restricted to commands the dictionary defines (incoming messages have passed ReadMessage)"}
 }
 
